@@ -3,7 +3,7 @@ from . import shared as S
 from . import roundtrip as R
 
 META = {
-    'claim_added': 'Also decided: extras are stripped (whole recursion) before construction; enum members by name, string-likes and Paths from the node text; requiredness arithmetic of class_subobjects and its agreement with defaulted_attributes.',
+    'claim_added': 'Also decided: extras are stripped (whole recursion) before construction; enum members by name, string-likes and Paths from the node text; requiredness arithmetic of class_subobjects and its agreement with defaulted_attributes. Round 3: the composed tree reaches recognition unmodified (R02.12); the dict built by construct_mapping is not written before __init__ receives it (R02.13); implicit raisers and user-code call sites of the load path are discharged as in C08 (R02.14/15).',
     'level': 'other',
     'technique': 'static: guard/dominance analysis of the admission rules (construct_mapping deep flag, attribute-set '
                  'agreement between introspection and constructor, per-kind accept guards via must-pass-through, key-kind and '
